@@ -498,7 +498,12 @@ func (w *world) tryUpdate(t *rapid.T, h *xibctmtypes.Header, now time.Time, cach
 	for k := range am {
 		keys[k] = true
 	}
+	sorted := make([]string, 0, len(keys))
 	for k := range keys {
+		sorted = append(sorted, k)
+	}
+	sort.Strings(sorted)
+	for _, k := range sorted {
 		if own[k] {
 			continue
 		}
@@ -558,7 +563,7 @@ func (w *world) render() string {
 // ---------------------------------------------------------------------------------------------
 // update step
 
-var preMuts = []string{"chainName", "revision", "time=trusted", "time=trusted+1ns", "time=trusted-1ns", "time=now+drift", "time=now+drift-1ns",
+var preMuts = []string{"chainName", "chainName/signedForClientChain", "revision", "time=trusted", "time=trusted+1ns", "time=trusted-1ns", "time=now+drift", "time=now+drift-1ns",
 	"appHash", "valsHash", "nextValsHash", "height=trusted", "height=trusted+1", "height=trusted-1"}
 
 var postMuts = []string{"p:time", "p:appHash", "p:nextValsHash", "p:height", "p:chainID", "p:commitHeight", "p:commitRound", "p:commitBlockHash",
@@ -651,6 +656,7 @@ func (w *world) update(t *rapid.T) {
 
 	// mutation before signing
 	mut := "none"
+	signAs := ""
 	mk := rapid.IntRange(0, 9).Draw(t, "mutKind")
 	if mk == 7 {
 		mut = rapid.SampledFrom(preMuts).Draw(t, "preMut")
@@ -658,6 +664,9 @@ func (w *world) update(t *rapid.T) {
 		switch mut {
 		case "chainName":
 			hdr.ChainID = "x" + hdr.ChainID
+		case "chainName/signedForClientChain":
+			hdr.ChainID = "x" + hdr.ChainID
+			signAs = w.m.ChainID
 		case "revision":
 			hdr.ChainID = chainIDAtRevision(w.m.ChainID, rev+1)
 			if hdr.ChainID == w.m.ChainID {
@@ -771,6 +780,7 @@ func (w *world) update(t *rapid.T) {
 		Modes:    modes,
 		SigTime:  hdr.Time.Add(time.Duration(rapid.IntRange(0, 5).Draw(t, "sigTime"))),
 		ForgeKey: rapid.IntRange(0, w.nk-1).Draw(t, "forgeKey"),
+		SignAs:   signAs,
 	}
 	commit := w.sim.MakeCommit(&hdr, own, spec)
 	msg := tmsim.Assemble(&hdr, commit, own, clienttypes.NewHeight(trusted.Rev, trusted.H), trVals)
@@ -844,6 +854,13 @@ func (w *world) update(t *rapid.T) {
 		}
 	}
 
+	// a relayer usually waits until the header is no longer from the future
+	if wait := hdr.Time.Add(-w.m.Drift + 1); wait.After(w.now) && wait.Before(maxClock) && !strings.HasPrefix(mut, "time=") && rapid.IntRange(0, 3).Draw(t, "waitForHeader") != 0 {
+		w.advanceTo(wait)
+		w.bh++
+		w.log = append(w.log, stepLog{"op": "waitForHeader", "now": off(w.now)})
+	}
+
 	// kind of update
 	kind := "forward"
 	hh := hkey{revisionOf(hdr.ChainID), uint64(hdr.Height)}
@@ -885,7 +902,9 @@ func (w *world) update(t *rapid.T) {
 		}
 	}
 	commitIdx := 0
-	if rapid.IntRange(0, 11).Draw(t, "commitAtBoundaryClock") == 0 {
+	if w.deliver {
+		clocks = clocks[:1] // the real chain has one clock: the open block's time
+	} else if rapid.IntRange(0, 11).Draw(t, "commitAtBoundaryClock") == 0 {
 		commitIdx = rapid.IntRange(0, len(clocks)-1).Draw(t, "commitClock")
 	}
 
@@ -1074,7 +1093,7 @@ func (w *world) proof(t *rapid.T) {
 	cs := w.clientState(w.at(w.now))
 	for _, c := range clocks {
 		w.r.Step()
-		ctx := w.at(c.at)
+		ctx := w.at(w.now).WithBlockTime(c.at)
 		br, _ := ctx.CacheContext()
 		store := w.c.App.XIBCKeeper.ClientKeeper.ClientStore(br, w.name)
 		height := clienttypes.NewHeight(q.Rev, q.H)
@@ -1163,6 +1182,16 @@ func (w *world) revive(t *rapid.T) {
 	w.checkSync(t, w.at(w.now))
 }
 
+// advanceTo moves the clock (in deliver mode by committing the open block of the real chain).
+func (w *world) advanceTo(at time.Time) {
+	if w.deliver {
+		w.c.Commit(at.Sub(w.c.Now))
+		w.now = w.c.Now
+		return
+	}
+	w.now = at
+}
+
 func (w *world) tick(t *rapid.T) {
 	var ds []time.Duration
 	for _, d := range w.durations(t) {
@@ -1171,7 +1200,7 @@ func (w *world) tick(t *rapid.T) {
 		}
 	}
 	d := rapid.SampledFrom(ds).Draw(t, "dt")
-	w.now = w.now.Add(d)
+	w.advanceTo(w.now.Add(d))
 	w.bh++
 	w.log = append(w.log, stepLog{"op": "tick", "dt": d.String(), "now": off(w.now)})
 }
@@ -1187,10 +1216,40 @@ var delays = []uint64{0, 0, 1, 1000, uint64(10 * time.Second), uint64(time.Hour)
 var hugeDelays = []uint64{math.MaxUint64, math.MaxUint64 - 1_000_000_000_000_000_000, 1 << 63}
 var firstHeights = []int64{1, 2, 45, 254, 1<<32 - 2, 1 << 40}
 
-func runHistory(t *rapid.T, r *rec.Recorder) {
-	c := baseChain()
-	ctx, _ := c.Ctx().CacheContext()
-	w := &world{r: r, c: c, ctx: ctx, mem: map[int64][]tmsim.Member{}, exclDelayOverflow: kf.Listed("C07", "delay-overflow")}
+var (
+	dtxOnce  sync.Once
+	dtxBase  *kit.Chain
+	dtxCount int
+)
+
+// dtxChain is the dedicated chain of the DeliverTx-mode test (its deliver state accumulates clients).
+func dtxChain() *kit.Chain {
+	dtxOnce.Do(func() { dtxBase = kit.NewChain("teleport_9000-1", kit.ChainOpts{Seed: []byte("c07-dtx")}) })
+	return dtxBase
+}
+
+func runHistory(t *rapid.T, r *rec.Recorder, deliver bool) {
+	var w *world
+	if deliver {
+		c := dtxChain()
+		w = &world{r: r, c: c, deliver: true, acct: c.Accounts[1]}
+	} else {
+		c := baseChain()
+		ctx, _ := c.Ctx().CacheContext()
+		w = &world{r: r, c: c, ctx: ctx}
+	}
+	c := w.c
+	if deliver {
+		// keep the shared chain's xibc store small: drop this case's client when the case ends
+		defer func() {
+			st := c.App.XIBCKeeper.ClientKeeper.ClientStore(c.Ctx(), w.name)
+			for _, kv := range w.dump(c.Ctx()) {
+				st.Delete(kv.K)
+			}
+		}()
+	}
+	w.mem = map[int64][]tmsim.Member{}
+	w.exclDelayOverflow = kf.Listed("C07", "delay-overflow")
 	w.nk = rapid.IntRange(3, 8).Draw(t, "keys")
 	salt := rapid.IntRange(0, 2).Draw(t, "keySalt")
 	keys := make([]tmsim.Key, w.nk)
@@ -1199,19 +1258,32 @@ func runHistory(t *rapid.T, r *rec.Recorder) {
 	}
 	chainID := rapid.SampledFrom(chainIDs).Draw(t, "chainID")
 	w.name = chainID
+	if deliver {
+		dtxCount++
+		w.name = fmt.Sprintf("c07-dtx-%d", dtxCount)
+		c.RegisterRelayer(w.acct.Acc, []string{w.name}, []string{"0x0000000000000000000000000000000000000001"})
+	}
 	w.tl = rapid.SampledFrom(trustLevels).Draw(t, "trustLevel")
 	tp := rapid.SampledFrom(trustingPeriods).Draw(t, "trustingPeriod")
+	if deliver && tp > time.Hour {
+		tp = time.Hour // the shared chain's clock only moves forward, across all cases
+	}
 	drift := rapid.SampledFrom(drifts).Draw(t, "drift")
 	delay := rapid.SampledFrom(delays).Draw(t, "delay")
 	if rapid.IntRange(0, 9).Draw(t, "hugeDelay") == 0 {
-		if w.exclDelayOverflow {
+		huge := rapid.SampledFrom(hugeDelays).Draw(t, "hugeDelayValue")
+		// processedTime + delay can wrap around uint64 for these (known finding delay-overflow)
+		if wraps := huge > math.MaxUint64-uint64(maxClock.UnixNano()); wraps && w.exclDelayOverflow {
 			r.Exclude("delay-overflow")
 		} else {
-			delay = rapid.SampledFrom(hugeDelays).Draw(t, "hugeDelayValue")
+			delay = huge
 		}
 	}
 	first := rapid.SampledFrom(firstHeights).Draw(t, "firstHeight")
 	t0 := kit.Epoch.Add(time.Duration(rapid.Int64Range(0, 1000).Draw(t, "t0")))
+	if deliver {
+		t0 = c.Now
+	}
 	w.m = &clientModel{ChainID: chainID, TrustNum: w.tl.N, TrustDen: w.tl.D, TP: tp, Drift: drift, Delay: delay, Cons: map[hkey]*consRec{}}
 	w.now = t0
 
@@ -1226,7 +1298,7 @@ func runHistory(t *rapid.T, r *rec.Recorder) {
 	start := w.sim.Blocks[rapid.Int64Range(w.sim.First, w.sim.Last).Draw(t, "clientAt")]
 	rev := revisionOf(chainID)
 	if dt := rapid.SampledFrom([]time.Duration{0, 0, 1, tp / 50, tp / 10, tp / 2}).Draw(t, "createLag"); start.Time.Add(dt).After(w.now) {
-		w.now = start.Time.Add(dt)
+		w.advanceTo(start.Time.Add(dt))
 	}
 	w.bh = 10
 	cs := xibctmtypes.NewClientState(chainID, xibctmtypes.Fraction{Numerator: w.tl.N, Denominator: w.tl.D}, tp, tp+tp/2, drift,
@@ -1268,7 +1340,17 @@ func runHistory(t *rapid.T, r *rec.Recorder) {
 
 func TestC07_Updates(t *testing.T) {
 	r := rec.For("TestC07_Updates", rule)
-	rapid.Check(t, func(t *rapid.T) { runHistory(t, r) })
+	rapid.Check(t, func(t *rapid.T) { runHistory(t, r, false) })
+}
+
+// TestC07_DeliverTx runs the same histories the way the chain runs them: the client lives in the
+// deliver state of a real chain, every update is a signed MsgUpdateClient from a registered relayer
+// through BaseApp.DeliverTx (ValidateBasic, ante handler, message cache), the clock is the block time
+// (advanced by committing blocks); a rejected transaction must leave the whole xibc store unchanged.
+func TestC07_DeliverTx(t *testing.T) {
+	r := rec.For("TestC07_DeliverTx", "same generator as TestC07_Updates with one clock value per update (the block time of a real chain); "+
+		"updates are MsgUpdateClient transactions through DeliverTx; additionally: rejected tx => whole xibc store dump unchanged")
+	rapid.Check(t, func(t *rapid.T) { runHistory(t, r, true) })
 }
 
 var _ = tmproto.PrecommitType
